@@ -91,3 +91,88 @@ Example C04_nonvacuous :
                      (Some (mk_state "two" (Some [("?v", JNum 8); ("n", JNum 8)])))
                      None [JStr "hi"]), None).
 Proof. vm_compute. reflexivity. Qed.
+
+(** * The guard log (the steps the comparison skips)
+
+    A guarded branch whose pattern yields several acceptable candidates goes
+    where the candidate listed first says, and the matcher lists them in Go
+    map-iteration order: [step] flags such steps [so_ambiguous] and the
+    comparison [step_agrees] does not look at them.  The harness records the
+    guard calls the implementation made and [glog_ok] (Corr/StepCorr.v)
+    checks them against the per-candidate guard semantics.  [step_logged]
+    (Spec/GuardLog.v) is the model's own account: [step] instrumented with a
+    candidate-order oracle [cord] (any function from a branch's index and
+    candidate list to the list actually presented) and returning the calls
+    made.  Any action type, any [run]; the oracle statements are about the
+    action language [act] the cases are written in. *)
+From Sheens Require Import Spec.GuardLog Corr.StepCorr Proofs.GuardLogProofs.
+
+(** under the identity order the instrumented step is [step] *)
+Theorem C04_step_logged_erases :
+  forall (action : Type) (run : action -> option bindings -> exec_raw) s st pending,
+  fst (step_logged action run cand_id s st pending) = step action run s st pending.
+Proof. exact step_logged_erase. Qed.
+
+(** soundness of the oracle: for every specification, state, pending message
+    and every candidate order, what the instrumented model step returns and
+    the log it produced are accepted (no side condition) *)
+Theorem C04_guard_log_oracle_sound :
+  forall (cord : cand_oracle) (s : aspec) (st : state) (pending : option json)
+         (o : step_out) (log : list mcall) (intact shared repeat : bool),
+  step_logged act run_act cord s st pending = (o, log) ->
+  glog_ok (mk_scase s st pending (GStep (so_stride o) (err_class (so_err o)))
+                    intact shared repeat (Some (map gcall_of log))) = true.
+Proof. exact glog_oracle_sound. Qed.
+
+(** a step not flagged ambiguous has one result, whatever the order of the
+    candidates (this is what [guard_order_free] is for) *)
+Theorem C04_unambiguous_step_order_free :
+  forall (action : Type) (run : action -> option bindings -> exec_raw) (cord : cand_oracle),
+  cand_perm cord ->
+  forall s st pending,
+  so_ambiguous (step action run s st pending) = false ->
+  fst (step_logged action run cord s st pending) = step action run s st pending.
+Proof. exact step_logged_order_free. Qed.
+
+(** the oracle is not vacuous: on an ambiguous step, where the comparison
+    accepts anything, it accepts the logs of the two orders and rejects a
+    guard loop that runs on every candidate and lets the last acceptance win
+    (same returned stride as an honest run), and one that stops at the first
+    acceptance but takes another candidate's bindings *)
+Theorem C04_guard_log_oracle_discriminates :
+  so_ambiguous (model_step disc_run_all) = true
+  /\ step_agrees stride_eqb disc_run_all = true
+  /\ step_agrees c04_proj disc_run_all = true
+  /\ step_agrees stride_eqb disc_wrong_bindings = true
+  /\ glog_ok disc_run_all = false
+  /\ glog_ok disc_wrong_bindings = false
+  /\ glog_ok disc_honest_first = true
+  /\ glog_ok disc_honest_last = true
+  /\ sc_go disc_honest_first
+     = go_of (fst (step_logged act run_act cand_id ex_spec_any ex_start (Some ex_msg)))
+  /\ sc_glog disc_honest_first
+     = Some (map gcall_of (snd (step_logged act run_act cand_id ex_spec_any ex_start (Some ex_msg))))
+  /\ sc_go disc_honest_last
+     = go_of (fst (step_logged act run_act rev_oracle ex_spec_any ex_start (Some ex_msg)))
+  /\ sc_glog disc_honest_last
+     = Some (map gcall_of (snd (step_logged act run_act rev_oracle ex_spec_any ex_start (Some ex_msg)))).
+Proof. exact glog_oracle_discriminates. Qed.
+
+Print Assumptions C04_step_logged_erases.
+Print Assumptions C04_guard_log_oracle_sound.
+Print Assumptions C04_unambiguous_step_order_free.
+Print Assumptions C04_guard_log_oracle_discriminates.
+
+(** non-vacuity of the soundness and order statements: logs with several
+    calls, two orders, an action-error step whose branches' guards run *)
+Example C04_guard_log_two_orders :
+  map gcall_of (snd (step_logged act run_act cand_id ex_spec_x2 ex_start (Some ex_msg)))
+  = [mk_gcall 1 (Some [("?x", JNum 1)]) GVReject;
+     mk_gcall 1 (Some [("?x", JNum 2)]) (GVAccept [("?x", JNum 2)])]
+  /\ map gcall_of (snd (step_logged act run_act rev_oracle ex_spec_x2 ex_start (Some ex_msg)))
+  = [mk_gcall 1 (Some [("?x", JNum 3)]) GVReject;
+     mk_gcall 1 (Some [("?x", JNum 2)]) (GVAccept [("?x", JNum 2)])]
+  /\ so_ambiguous (astep ex_spec_x2 ex_start (Some ex_msg)) = false
+  /\ fst (step_logged act run_act rev_oracle ex_spec_x2 ex_start (Some ex_msg))
+     = astep ex_spec_x2 ex_start (Some ex_msg).
+Proof. exact ex_x2_logs. Qed.
